@@ -442,4 +442,37 @@ theorem init_inv (c : Cfg ρ) (maxSize : Nat) (hasDelay : Bool) : Inv c (init ma
   intro q hq
   simp [delivered, pendingFor, inHand, init, project_nil, Batcher.new]
 
+theorem exec_snoc (c : Cfg ρ) (as : List (Act ρ)) (a : Act ρ) :
+    ∀ s : St ρ, exec c s (as ++ [a]) = (exec c s as).bind (fun s1 => step c s1 a) := by
+  induction as with
+  | nil =>
+    intro s
+    cases h : step c s a <;> simp [exec, h]
+  | cons x xs ih =>
+    intro s
+    cases h : step c s x with
+    | none => simp [exec, h]
+    | some s1 => simp only [List.cons_append, exec, h]; exact ih _
+
+/-- actions other than `enq`, `rfEmit` and the join of a record placeholder do not touch the fetcher component -/
+theorem step_rf_frame (c : Cfg ρ) (s s' : St ρ) (a : Act ρ) (hs : step c s a = some s')
+    (h1 : a ≠ .enq) (h2 : a ≠ .rfEmit) (h3 : a = .sTake → ∀ r rest, s.stream ≠ .record r :: rest) :
+    s'.rfOut = s.rfOut ∧ s'.rfPending = s.rfPending := by
+  cases a with
+  | enq => exact absurd rfl h1
+  | rfEmit => exact absurd rfl h2
+  | sTake =>
+    simp only [step] at hs
+    split at hs
+    · next r rest _ _ hst => exact absurd hst (h3 rfl r rest)
+    · simp only [Option.some.injEq] at hs; subst hs; exact ⟨rfl, rfl⟩
+    · simp at hs
+  | fetch rs | tick | barrier id | sAdd | sIsFull | sFlush | sSend | fire o | stale o | staleTok o t | oTok o | oTFlush o
+    | oDone o | oRecv o =>
+    simp only [step] at hs
+    repeat' (split at hs)
+    all_goals first
+      | (simp at hs; done)
+      | (simp only [Option.some.injEq] at hs; subst hs; simp [setOp])
+
 end Rxn.Runner
